@@ -137,6 +137,7 @@ def run(ctx):
                        "ground_all) and over one shared ClauseDB; non-trivial = history with >= 3 ops on a program with a rule body; "
                        "distinct = (program, history)")
     ctx.assumptions += ["the engine's table reuse is tied to the semantics by differential testing only"]
+    cc.IMPL_CPU_TIMEOUT = ctx.n(10, 20)   # CPU seconds per evaluation (a non-terminating grounding costs exactly this)
     ctx.prove("C08/Props.v")
     try:
         so.build(ctx)
